@@ -613,7 +613,8 @@ pub fn main(tier: Tier) -> i32 {
     if reg.len() != crate::wire_gen::ENUM_VARIANTS {
         machinery_failure(&format!("{} message structs but {} enum variants", reg.len(), crate::wire_gen::ENUM_VARIANTS));
     }
-    let d = tier.pick(1, 2);
+    // pairs of deviations take a fraction of a second, so both tiers enumerate them
+    let d = tier.pick(2, 2);
     // cases: (type index, selection vector)
     let mut cases: Vec<(usize, Vec<usize>)> = vec![];
     for (ti, t) in reg.iter().enumerate() {
@@ -636,6 +637,26 @@ pub fn main(tier: Tier) -> i32 {
                             s[f] = v;
                             s[g] = u;
                             cases.push((ti, s));
+                        }
+                    }
+                }
+            }
+        }
+        // thorough: triples of deviations for the types with at most eight fields
+        if tier == Tier::Thorough && ar.len() <= 8 {
+            for f in 0..ar.len() {
+                for g in f + 1..ar.len() {
+                    for h in g + 1..ar.len() {
+                        for v in 1..ar[f] {
+                            for u in 1..ar[g] {
+                                for x in 1..ar[h] {
+                                    let mut s = base.clone();
+                                    s[f] = v;
+                                    s[g] = u;
+                                    s[h] = x;
+                                    cases.push((ti, s));
+                                }
+                            }
                         }
                     }
                 }
